@@ -95,7 +95,9 @@ impl RangeListTable {
                         have_base_address = true;
                     }
                     Range::OffsetPair { begin, end } => {
-                        if begin == end {
+                        if begin == end
+                            || is_base_address_marker(Address::Constant(begin), address_size)
+                        {
                             return Err(Error::InvalidRange);
                         }
                         if !have_base_address {
@@ -105,7 +107,7 @@ impl RangeListTable {
                         w.write_udata(end, address_size)?;
                     }
                     Range::StartEnd { begin, end } => {
-                        if begin == end {
+                        if begin == end || is_base_address_marker(begin, address_size) {
                             return Err(Error::InvalidRange);
                         }
                         if have_base_address {
@@ -116,13 +118,18 @@ impl RangeListTable {
                     }
                     Range::StartLength { begin, length } => {
                         let end = match begin {
-                            Address::Constant(begin) => Address::Constant(begin + length),
+                            Address::Constant(begin) => Address::Constant(
+                                begin.checked_add(length).ok_or(Error::InvalidRange)?,
+                            ),
                             Address::Symbol { symbol, addend } => Address::Symbol {
                                 symbol,
-                                addend: addend + length as i64,
+                                addend: i64::try_from(length)
+                                    .ok()
+                                    .and_then(|length| addend.checked_add(length))
+                                    .ok_or(Error::InvalidRange)?,
                             },
                         };
-                        if begin == end {
+                        if begin == end || is_base_address_marker(begin, address_size) {
                             return Err(Error::InvalidRange);
                         }
                         if have_base_address {
@@ -199,6 +206,15 @@ impl RangeListTable {
             base_id: self.base_id,
             offsets,
         })
+    }
+}
+
+/// Return true if a range starting at `begin` would be read back as a base address
+/// selection entry in the pre-DWARF 5 encoding.
+pub(crate) fn is_base_address_marker(begin: Address, address_size: u8) -> bool {
+    match begin {
+        Address::Constant(begin) => begin == !0 >> (64 - u32::from(address_size.clamp(1, 8)) * 8),
+        Address::Symbol { .. } => false,
     }
 }
 
